@@ -34,7 +34,7 @@ prop = Prop(
     technique=(
         "model-based PBT: generated operation histories interpreted against DefaultDataManager and a reference "
         "model of facts/relations (lower/upper answer bounds), all paths queried after every step; plus a "
-        "bounded-exhaustive enumeration of all histories of length 5 (6 in thorough) over two small op alphabets"
+        "bounded-exhaustive enumeration of all histories of length 5 / 4 (quick) or 6 / 5 / 5 (thorough) over small 10-op alphabets"
     ),
     rule=(
         "history: 1..16 ops (register_path, handle- and path-addressed register_relation / invalidate_location, "
@@ -44,11 +44,12 @@ prop = Prop(
         "every path queried with every filter after every op. Non-trivial (measured on the model's event log) = an "
         "invalidation that invalidated a valid fact strictly beneath the invalidated path, or a re-registration of "
         "an invalidated path, or a relation between two valid facts with different (location, path); distinct by "
-        "the whole case. exhaustive: every op sequence of the stated length over a 10-op alphabet; non-trivial by "
-        "the same rule."
+        "the whole case. exhaustive-small: every op sequence of length 5 over the sibling-locations alphabet and of "
+        "length 4 over the container alphabet (thorough: lengths 6 and 5, plus a symlink/local alphabet of length 5), all involved paths "
+        "queried after every op; non-trivial by the same rule, counted per history."
     ),
     level_text=(
-        "Random search over histories plus certainty inside the two enumerated op alphabets; the oracle is an "
+        "Random search over histories plus certainty inside the enumerated op alphabets; the oracle is an "
         "independent fact model derived from the property statement (no StreamFlow code)."
     ),
     level_note=(
@@ -603,9 +604,12 @@ path_s = st.tuples(st.sampled_from([0, 0, 1, 1, 2, 2, 3, 4]), st.lists(st.sample
 small = st.integers(0, 7)
 loc_i = st.integers(0, 2)
 typ_i = st.sampled_from([0, 0, 0, 1])
+reg_s = st.tuples(st.just("reg"), loc_i, path_s, typ_i, st.integers(0, 2))
+link_s = st.tuples(st.just("link"), loc_i, path_s, path_s)
+spread_s = st.tuples(st.just("spread"), path_s, st.lists(loc_i, min_size=2, max_size=3), typ_i)
 op_s = st.one_of(
-    st.tuples(st.just("reg"), loc_i, path_s, typ_i, st.integers(0, 2)),
-    st.tuples(st.just("reg"), loc_i, path_s, typ_i, st.integers(0, 2)),
+    reg_s,
+    reg_s,
     st.tuples(st.just("rereg"), small, typ_i),
     st.tuples(st.just("rel"), small, small),
     st.tuples(st.just("relp"), loc_i, path_s, loc_i, path_s),
@@ -614,12 +618,18 @@ op_s = st.one_of(
     st.tuples(st.just("invp"), loc_i, path_s),
     st.tuples(st.just("invq"), path_s, small),
     st.tuples(st.just("pick"), st.one_of(path_s, st.just([])), small),
-    st.tuples(st.just("link"), loc_i, path_s, path_s),
-    st.tuples(st.just("spread"), path_s, st.lists(loc_i, min_size=2, max_size=3), typ_i),
+    link_s,
+    spread_s,
     st.tuples(st.just("src"), path_s, st.integers(0, 3)),
 ).map(list)
+# a history starts with something being registered (every other op is a no-op on an empty registry)
 history_case = st.fixed_dictionaries(
-    {"cfg": st.integers(0, len(CONFIGS) - 1), "ops": st.lists(op_s, min_size=1, max_size=16)}
+    {
+        "cfg": st.integers(0, len(CONFIGS) - 1),
+        "ops": st.tuples(st.one_of(reg_s, reg_s, link_s, spread_s).map(list), st.lists(op_s, min_size=1, max_size=15)).map(
+            lambda t: [t[0], *t[1]]
+        ),
+    }
 )
 
 
@@ -653,7 +663,7 @@ def classify(rec, it: Interp, cfg, src_classes) -> bool:
     return bool(ev["invalidate-beneath"] or ev["rereg-after-invalidation"] or ev["relation-same-location"] or ev["relation-cross-location"])
 
 
-@prop.given("history", history_case, quick=2400, thorough=150000)
+@prop.given("history", history_case, quick=4000, thorough=200000, max_shards=8)
 async def check_history(case, rec):
     from vf.engine.harness import make_context
 
@@ -663,17 +673,20 @@ async def check_history(case, rec):
         it = Interp(cfg, ctx.data_manager)
         src_classes = []
         deps = sorted({LOCDEFS[k]["dep"] for k in it.all_locs}) + ["elsewhere"]
-        it.check_all()
-        for op in case["ops"]:
-            it.step(op)
+        try:
             it.check_all()
-            if op[0] == "src":
-                src_classes.append(await it.check_source(mkpath(op[1]), deps[op[2] % len(deps)]))
-        # the source location of every known path, towards every deployment
-        for path in sorted(it.model.parent):
-            for dep in deps:
-                src_classes.append(await it.check_source(path, dep))
-        rec.nontrivial(classify(rec, it, cfg, src_classes))
+            for op in case["ops"]:
+                it.step(op)
+                it.check_all()
+                if op[0] == "src":
+                    src_classes.append(await it.check_source(mkpath(op[1]), deps[op[2] % len(deps)]))
+            # the source location of every known path, towards every deployment
+            for path in sorted(it.model.parent):
+                for dep in deps:
+                    src_classes.append(await it.check_source(path, dep))
+        finally:
+            # also histories that end in a (known) violation are classified by what happened up to there
+            rec.nontrivial(classify(rec, it, cfg, src_classes))
     finally:
         await ctx.close()
 
@@ -732,14 +745,14 @@ ALPHABETS = [
 
 
 def gen_blocks(tier):
-    n = 5 if tier == "quick" else 6
-    for ai in range(2 if tier == "quick" else 3):
+    plan = [(0, 5), (1, 4)] if tier == "quick" else [(0, 6), (1, 5), (2, 5)]
+    for ai, n in plan:
         k = len(ALPHABETS[ai]["ops"])
         for pre in itertools.product(range(k), repeat=2):
             yield {"alphabet": ai, "prefix": list(pre), "length": n}
 
 
-@prop.enumerated("exhaustive-small", gen_blocks)
+@prop.enumerated("exhaustive-small", gen_blocks, max_shards=12)
 async def check_block(case, rec):
     from streamflow.data.manager import DefaultDataManager
     from vf.engine.harness import make_context
